@@ -63,16 +63,22 @@ CF_LARGE = [(16, 5, "u16", "100"), (16, 8, "u16", "100"), (32, 8, "u32", "100"),
             # the same configuration on several block types (1, 2, 3, 4, 5 limbs): also compared across block types by C12
             (40, 8, "u8", "100"), (40, 8, "u16", "100"), (33, 8, "u8", "100"), (33, 8, "u16", "100"), (33, 8, "u32", "100"), (32, 8, "u16", "100")]   # 4-limb and 3-limb storage with subnormals
 
+# long double lines only (mode `ld` of the large-configuration TU): es > 11 leaves binary64's exponent range, 80-bit
+# configurations have fbits >= 63 (block path of convert_ieee754<long double>, 1 + f rounds in to_native<long double>)
+CF_LD = [(80, 15, "u16", "100"), (80, 15, "u32", "111"), (80, 15, "u8", "010"), (64, 15, "u32", "100"), (48, 12, "u16", "110"), (80, 11, "u8", "100")]
+
 
 def cf_flags(es):
     # es = 1 requires subnormals and supernormals (static_assert in cfloat)
     return ["110", "111"] if es == 1 else ["000", "001", "010", "011", "100", "101", "110", "111"]
 
 
-def cfloat_streams(ops, quick_pairs, thorough_pairs, quick_exh8=None, all_bt_quick=False, shards=4):
+def cfloat_streams(ops, quick_pairs, thorough_pairs, quick_exh8=None, all_bt_quick=False, shards=4, ld=None):
     """exhaustive <= 8 bits over flags x (nbits,es) x block types; structured pairs for the large configurations.
     quick tier: one block type per (nbits,es,flags) rotating with the seed (all three when all_bt_quick), and a
-    seed-rotated subset of quick_exh8 of the 8-bit (nbits,es,flags) combinations when quick_exh8 is given."""
+    seed-rotated subset of quick_exh8 of the 8-bit (nbits,es,flags) combinations when quick_exh8 is given.
+    ld = (quick, thorough) encodings per CF_LD configuration: the long-double-only streams (C03 fromld, C04 told / rtld);
+    every other configuration carries its long double lines inside the tonat / fromnat opsets."""
     def f(tier, seed, exes):
         jobs = []
         combos = [(n, es, fl) for (n, es) in CF_SMALL for fl in cf_flags(es)]
@@ -93,13 +99,23 @@ def cfloat_streams(ops, quick_pairs, thorough_pairs, quick_exh8=None, all_bt_qui
                 jobs.append(dict(exe=exes["h_cfloat_big"], args=["rnd", str(n), str(es), bt, fl, str(max(1, k // nsh)), ops],
                                  env={"VERIF_SEED": str(seed * 100 + sh)},
                                  label=f"cfloat<{n},{es},{bt},{fl}> structured {ops} shard {sh}", weight=k * 30 // nsh))
+        if ld is not None:
+            cnt = ld[0] if tier == "quick" else ld[1]
+            nsh = 1 if tier == "quick" else shards
+            for (n, es, bt, fl) in CF_LD:
+                for sh in range(nsh):
+                    jobs.append(dict(exe=exes["h_cfloat_big"], args=["ld", str(n), str(es), bt, fl, str(max(1, cnt // nsh)), ops],
+                                     env={"VERIF_SEED": str(seed * 100 + sh)},
+                                     label=f"cfloat<{n},{es},{bt},{fl}> long double {ops} shard {sh}", weight=cnt * 3000 // nsh))
         jobs.sort(key=lambda j: -j.get("weight", 0))
         return jobs
     return f
 
 
 CFLOAT_TRUSTED = ["gen/extract_tables.py (regex translator for native/subnormal.hpp tables and ieee754_parameter constants)",
-                  "IEEE-754 binary32/binary64 hardware arithmetic of this machine (single/duble lines carry the hardware result)"]
+                  "IEEE-754 binary32/binary64 hardware arithmetic of this machine (single/duble lines carry the hardware result)",
+                  "x87 80-bit long double of this machine and g++'s long double arithmetic in the harness (ldexp, nextafter, memcpy of the 10 "
+                  "value bytes): long double sources are built from the target's fields, results are printed as sign|15|63 bit patterns"]
 
 
 def corpus_jobs(prop, path, exes):
@@ -146,33 +162,47 @@ PROPS = {
     ),
     "C03": dict(
         harness=CFLOAT_HARNESS,
-        streams=cfloat_streams("fromnat", 4000, 40000, all_bt_quick=True),
+        streams=cfloat_streams("fromnat", 4000, 40000, all_bt_quick=True, ld=(300, 4000)),
         proof_modules=["UVerifProofs.Props.C03Cfloat"],
         level="proof",
         level_text="(cfloat clauses) Lean model of convert_ieee754 (field extraction, guard/round/sticky, subnormal target, overflow, "
-                   "post-processing) and convert_signed/unsigned_integer + round<>; every conversion result is judged by IeeeNearest on the "
-                   "exact value of the source; theorems: special sources (every NaN payload, infinities, zeros), normal sources into the "
-                   "normal range; full statements as Prop defs",
+                   "post-processing) for float, double AND long double sources (x86-64 80-bit: fromLD = the long_double_decoder fields, no "
+                   "identical-layout copy, the regenerated ieee754_parameter<long double> masks incl. its hmask, the uint64_t composition, the "
+                   "block path of targets wider than 64 bits) and convert_signed/unsigned_integer + round<>; every conversion result is judged "
+                   "by IeeeNearest on the exact value of the source; theorems: special sources (every NaN payload, infinities, zeros; all three "
+                   "source formats), normal sources into the normal range (float, double, long double); full statements as Prop defs",
         level_note="trusted: as C02; repaired in /repo and proved / checked in full since: the integer round<> carry and sticky gap, "
                    "NaN sources with an arbitrary payload (C03_cfloat_from_ieee_nan: every NaN source gives a NaN, all configurations); "
                    "integer sources inside the range are now proved correctly rounded (C03_cfloat_from_int_partial, side condition "
                    "C03_cfloat_from_int_inRange); still KNOWN-FINDING classes: no range check in the integer routines (the repair was "
                    "withdrawn: static/cfloat/math/fractional.cpp depends on the old conversion), integer 1 into es = 1 configurations, "
-                   "subnormal IEEE sources, saturating+supernormal maxpos",
-        explanation="cfloat from double/float/integers: sources generated from the target (each value, midpoints, 1 ulp around), specials, random patterns",
+                   "subnormal IEEE sources, saturating+supernormal maxpos; long double sources only: ties in the target's subnormal range round "
+                   "up (hmask has bit 0 set), the shift by 64 for values in [minpos/2, minpos) (also a C20 UBSan finding), targets with "
+                   "fbits >= 63 have no subnormal handling",
+        explanation="cfloat from double/float/long double/integers: sources generated from the target (each value, midpoints, 1 source ulp around -- "
+                    "for long double 2^-63 relative, plus 2 and 1024 ulps off every tie (and 3072 at the overflow cusp), so that a detour through "
+                    "binary64 or a dropped low significand bit changes a result), specials (17 NaN payloads x 2 signs, infinities, the limits of "
+                    "binary64 and of long double), random patterns; long-double-only streams for cfloat<80,15> x3, <64,15>, <48,12>, <80,11>",
         assumptions=["the compiled code behaves like the model on inputs that were not explored"],
         trusted=CFLOAT_TRUSTED,
     ),
     "C04": dict(
         harness=CFLOAT_HARNESS,
-        streams=cfloat_streams("tonat", 4000, 40000, all_bt_quick=True),
+        streams=cfloat_streams("tonat", 4000, 40000, all_bt_quick=True, ld=(1200, 16000)),
         proof_modules=["UVerifProofs.Props.C04Cfloat"],
         level="proof",
-        level_text="(cfloat clauses) Lean model of to_native (subnormal_exponent table regenerated from source) and the integer casts; "
+        level_text="(cfloat clauses) Lean model of to_native (subnormal_exponent table regenerated from source) and the integer casts, and of "
+                   "to_native<long double> computed step by step in the 64-bit significand (toNativeLD: 1 + f rounds for fbits >= 64, powers of "
+                   "two beyond 2^+-63 come from the double function ipow, subnormals from the double table); "
                    "read-back is judged against the exact value of the encoding, the round trip against the original encoding",
         level_note="trusted: as C02; to_int() went through float (repaired in /repo: it reads back through double like to_long_long, no class "
-                   "left); the bfloat/float-subnormal round trip is a KNOWN-FINDING class",
-        explanation="cfloat to double/float/int/long long and round trip: every encoding of the small configurations, structured encodings of the large ones",
+                   "left); the bfloat/float-subnormal round trip is a KNOWN-FINDING class; long double: values outside [2^-1074, 2^1024) and the "
+                   "subnormals of es >= 12 read back as 0 / inf (ipow and subnormal_exponent are double), a signalling NaN comes back quiet "
+                   "(ieee754_parameter<long double> carries the binary64 NaN masks), subnormal values of targets with fbits >= 63 do not "
+                   "convert back -- KNOWN-FINDING classes",
+        explanation="cfloat to double/float/long double/int/long long and round trip: every encoding of the small configurations, structured "
+                    "encodings of the large ones; long double read-back (told, as sign|15|63 pattern) and round trip (rtld) also for "
+                    "cfloat<80,15> x3, <64,15>, <48,12>, <80,11> (exponent fields at the +-63/64, +-1022..1025, -1074/-1075 boundaries of to_native)",
         assumptions=["the compiled code behaves like the model on inputs that were not explored"],
         trusted=CFLOAT_TRUSTED,
     ),
